@@ -73,6 +73,7 @@ enum WsEv {
 }
 
 thread_local! {
+    static WSTIME: RefCell<Vec<u64>> = const { RefCell::new(Vec::new()) };
     static WSLOG: RefCell<Vec<WsEv>> = const { RefCell::new(Vec::new()) };
     static ACK_AT: RefCell<Option<usize>> = const { RefCell::new(None) };
 }
@@ -80,6 +81,7 @@ thread_local! {
 fn wslog(e: WsEv) {
     sim::log_order(format!("ws {:?}", e));
     WSLOG.with(|l| l.borrow_mut().push(e));
+    WSTIME.with(|l| l.borrow_mut().push(sim::now()));
 }
 
 struct Inbox {
@@ -215,6 +217,7 @@ fn run(variant: usize) -> CaseOut {
     let mut out = CaseOut::default();
     reset_world();
     WSLOG.with(|l| l.borrow_mut().clear());
+    WSTIME.with(|l| l.borrow_mut().clear());
     ACK_AT.with(|a| *a.borrow_mut() = None);
     let legacy = variant == 1 || variant == 3 || variant == 6;
     let faults = variant == 3 || variant == 4;
@@ -356,7 +359,8 @@ fn run(variant: usize) -> CaseOut {
         "protocol {:?}; script {:?}; disconnect {:?}; channel events {:?}; keepalive {:?}; consumer lag {lag}; params {:?}; init latency {init_lat}",
         protocol, script.acts, script.disconnect_at, script.chan_events, keepalive, params
     );
-    monitor(&script, legacy, keepalive.is_some(), &log, &rlog, end, &desc, &mut out);
+    let times = WSTIME.with(|l| l.borrow().clone());
+    monitor(&script, legacy, keepalive.is_some(), keepalive, &times, &log, &rlog, end, &desc, &mut out);
     if sim::verbose() {
         out.sample = Some(json!({"protocol": format!("{:?}", protocol), "script": script.acts.iter().map(|(t, a)| format!("t={t} {:?}", a)).collect::<Vec<_>>(),
             "disconnect_at": script.disconnect_at, "channel_events": script.chan_events.len(), "keepalive_us": keepalive, "consumer_lag": lag,
@@ -390,7 +394,7 @@ struct LiveOp {
 }
 
 #[allow(clippy::too_many_arguments)]
-fn monitor(script: &Script, legacy: bool, keepalive: bool, log: &[WsEv], rlog: &[world::REvent], end: sim::End, desc: &str, out: &mut CaseOut) {
+fn monitor(script: &Script, legacy: bool, keepalive: bool, interval: Option<u64>, times: &[u64], log: &[WsEv], rlog: &[world::REvent], end: sim::End, desc: &str, out: &mut CaseOut) {
     let mut init_seen = false;
     let mut acked = false;
     let mut live: BTreeMap<String, LiveOp> = BTreeMap::new();
@@ -423,7 +427,10 @@ fn monitor(script: &Script, legacy: bool, keepalive: bool, log: &[WsEv], rlog: &
             None => false,
         }
     }
-    for ev in log.iter() {
+    // time of the most recent client activity the server has seen (start of the connection counts)
+    let mut last_activity: u64 = 0;
+    for (pos, ev) in log.iter().enumerate() {
+        let t_now = times.get(pos).cloned().unwrap_or(0);
         match ev {
             WsEv::Delivered(k) => {
                 delivered.insert(*k);
@@ -439,6 +446,7 @@ fn monitor(script: &Script, legacy: bool, keepalive: bool, log: &[WsEv], rlog: &
                     fail!("C25/consumed-after-close", "message #{k} consumed after the connection was closed");
                 }
                 consumed.insert(*k);
+                last_activity = t_now;
                 if !live.is_empty() {
                     sim::count("probe:operation-live-while-input-processed");
                     out.nontrivial = true;
@@ -515,6 +523,11 @@ fn monitor(script: &Script, legacy: bool, keepalive: bool, log: &[WsEv], rlog: &
                         let callback_failed = obl.iter().any(|e| matches!(e, Expect::AckOrReject | Expect::PongOrFail));
                         if is_timeout {
                             sim::count("probe:keepalive-fired");
+                            if let Some(iv) = interval {
+                                if t_now < last_activity + iv {
+                                    fail!("C25/premature-keepalive-timeout", "keep-alive timeout at t={t_now} although the server processed a client message at t={last_activity} and the timeout is {iv}");
+                                }
+                            }
                         } else if !(due || callback_failed) {
                             fail!("C25/unexpected-output", "connection_error without a reason: {v}");
                         }
@@ -617,6 +630,11 @@ fn monitor(script: &Script, legacy: bool, keepalive: bool, log: &[WsEv], rlog: &
                             // the library's keep-alive close; 4408 is the protocol's "connection
                             // initialisation timeout", legal while the connection is not acknowledged
                             sim::count("probe:keepalive-fired");
+                            if let Some(iv) = interval {
+                                if t_now < last_activity + iv {
+                                    fail!("C25/premature-keepalive-timeout", "keep-alive close {code} at t={t_now} although the server processed a client message at t={last_activity} and the timeout is {iv}");
+                                }
+                            }
                         } else {
                             fail!("C25/unexpected-close", "close {code} without a reason");
                         }
